@@ -8,8 +8,9 @@ CONSTANTS
   KJson = @KJSON@
   KRe = @KRE@
   KMut2 = @KMUT2@
+  KFn = @KFN@
 INIT Init
 NEXT Next
 VIEW View
-INVARIANTS Emit RoundTrip1 RoundTrip2 ValuesValid Canonical1 Reenc2Equivalent
+INVARIANTS Emit RoundTrip1 RoundTrip2 ValuesValid Canonical1 Reenc2Equivalent FnResultRoundTrip
 CHECK_DEADLOCK FALSE
